@@ -99,6 +99,14 @@ func c02Repeat(useShipped bool) func(t *rapid.T) {
 				}
 			}
 		}
+		withEmb := false
+		if !useShipped && len(cmds) <= 80 && rapid.IntRange(0, 2).Draw(t, "embeddings") == 0 {
+			// the optional semantic stage: equal index content attached to both copies
+			idx := drawEmbeddingIndex(t, cmds)
+			database.VerifSetEmbeddingIndex(db, idx)
+			database.VerifSetEmbeddingIndex(db2, cloneEmbeddingIndex(idx))
+			withEmb = true
+		}
 		var q string
 		var qcls gen.QueryClass
 		if useShipped {
@@ -154,6 +162,9 @@ func c02Repeat(useShipped bool) func(t *rapid.T) {
 		}
 		tie, cut := hasTieOrCut(db, q, opt)
 		labels := []string{"db:" + string(cls), "q:" + string(qcls)}
+		if withEmb {
+			labels = append(labels, "embedding-index-attached")
+		}
 		if tie {
 			labels = append(labels, "tie-present")
 		}
